@@ -158,4 +158,67 @@ inductive SSAReach : SSA → SSA → Prop
 
 def SSA.quiescent (s : SSA) : Prop := ∀ e, s.lag.has e = true → s.pend e = []
 
+/-! ## SubtractReactive
+
+`src.SubtractReactive(others…)` registers one callback on the source (occurrence `+`) and one per
+subtracted set (occurrence `−`), one after the other, each with an initial delivery; writers of the
+source and of the subtracted sets run concurrently (also during the creation) and may touch the same
+elements.  Every callback runs `s.Compute(func … { return setArithmetic.Add/Subtract(mutations) })`:
+the occurrence arithmetic and the application of its net result to the result set happen under the
+result set's mutex — **that is the hypothesis of this model** (one atomic `deliver` step), tied to the
+code by the skeleton obligation `C14_skeleton_readableSet_SubtractReactive`.  `view` is a ghost: the
+content of the subscribed set as far as it has been delivered to this subscription. -/
+
+structure RSub where
+  set : Nat
+  plus : Bool                                    -- the source's subscription (else a subtracted set's)
+  view : Nat → Bool
+  queue : List ((Nat → Bool) × (Nat → Bool))
+
+structure SRA where
+  mem : Nat → Nat → Bool
+  subs : List RSub
+  todo : Option (List Nat)        -- creation: `none` = not started; `some l` = subtracted sets still to subscribe
+  src : Nat
+  others : List Nat
+  count : Nat → Int
+  value : Nat → Bool
+
+def SRA.init : SRA :=
+  { mem := fun _ _ => false, subs := [], todo := none, src := 0, others := [], count := fun _ => 0, value := fun _ => false }
+
+def renqueue (i : Nat) (ra rd : Nat → Bool) (s : RSub) : RSub :=
+  if s.set = i then { s with queue := s.queue ++ [(ra, rd)] } else s
+
+inductive SRAStep : SRA → SRA → Prop
+  | write (s : SRA) (i : Nat) (op : SrcOp) :
+      SRAStep s { s with mem := setAt s.mem i (op.newMem (s.mem i)),
+                         subs := s.subs.map (renqueue i (op.repAdded (s.mem i)) (op.repDeleted (s.mem i))) }
+  /-- `SubtractReactive` starts: the callback on the source is registered (content read atomically) -/
+  | create (s : SRA) (src : Nat) (others : List Nat) (h : s.todo = none) :
+      SRAStep s { s with todo := some others, src := src, others := others,
+                         subs := [{ set := src, plus := true, view := fun _ => false, queue := [(s.mem src, fun _ => false)] }] }
+  /-- the next subtracted set is subscribed -/
+  | subscribe (s : SRA) (o : Nat) (rest : List Nat) (h : s.todo = some (o :: rest)) :
+      SRAStep s { s with todo := some rest,
+                         subs := s.subs ++ [{ set := o, plus := false, view := fun _ => false, queue := [(s.mem o, fun _ => false)] }] }
+  /-- one callback runs: arithmetic + application to the result set, atomically under the result set's mutex -/
+  | deliver (s : SRA) (j : Nat) (sub : RSub) (ra rd : Nat → Bool) (rest : List ((Nat → Bool) × (Nat → Bool)))
+      (hj : s.subs[j]? = some sub) (hq : sub.queue = (ra, rd) :: rest) :
+      SRAStep s { s with
+        subs := s.subs.set j { sub with view := fun x => (applyBit (sub.view x) (ra x) (rd x)).1, queue := rest },
+        count := fun x => if sub.plus then (inheritBit (s.count x) (s.value x) (ra x) (rd x)).1
+                          else (subtractBit (s.count x) (s.value x) (ra x) (rd x)).1,
+        value := fun x => if sub.plus then (inheritBit (s.count x) (s.value x) (ra x) (rd x)).2
+                          else (subtractBit (s.count x) (s.value x) (ra x) (rd x)).2 }
+
+inductive SRAReach : SRA → SRA → Prop
+  | refl (s : SRA) : SRAReach s s
+  | tail {a b c : SRA} : SRAReach a b → SRAStep b c → SRAReach a c
+
+/-- The creation has finished and nothing is queued. -/
+def SRA.quiescent (s : SRA) : Prop := s.todo = some [] ∧ ∀ sub ∈ s.subs, sub.queue = []
+
+def SRA.diff (s : SRA) (x : Nat) : Bool := s.mem s.src x && s.others.all (fun o => !s.mem o x)
+
 end Hive.Derived
